@@ -22,6 +22,7 @@ func TestMain(m *testing.M) { vt.Main(m) }
 
 type update struct {
 	Dt       int64   `json:"dt_ns"` // clock advance before this update
+	Dt2      int64   `json:"dt2_ns,omitempty"` // a second advance: together more than a duration can express (~292 years)
 	Offset   int64   `json:"offset_ns"`
 	Weight   float64 `json:"weight"`
 	External bool    `json:"external_step,omitempty"` // the clock epoch changes (step by someone else) before this update
@@ -37,7 +38,7 @@ type failer interface {
 }
 
 type stats struct {
-	steps, adjusts, clamped, epochWhileTracking int
+	steps, adjusts, clamped, epochWhileTracking, hugeGaps int
 }
 
 func checkPLL(t failer, c hcase) (st stats) {
@@ -55,6 +56,7 @@ func checkPLL(t failer, c hcase) (st stats) {
 	)
 	for i, u := range c.U {
 		clk.Advance(time.Duration(u.Dt))
+		clk.Advance(time.Duration(u.Dt2))
 		if u.External {
 			clk.BumpEpoch()
 		}
@@ -104,12 +106,22 @@ func checkPLL(t failer, c hcase) (st stats) {
 				}
 				el := now.Sub(prev)
 				wantDur := time.Duration(math.Ceil(el.Seconds())) * time.Second
-				if call.Duration != wantDur {
+				if math.Ceil(el.Seconds()) >= math.MaxInt64/1e9 {
+					// the elapsed whole seconds do not fit a duration: any positive duration up to the largest
+					// one is admissible; the slew bound below is taken from the duration asked for
+					st.hugeGaps++
+				} else if diff := float64(call.Duration - wantDur); math.Abs(diff) > math.Nextafter(float64(wantDur), math.Inf(1))-float64(wantDur) || wantDur < 1<<53 && diff != 0 {
+					// (beyond 2^53 ns, ~104 days, whole seconds are not exact in the discipline's float arithmetic: one ulp)
 					t.Fatalf("update %d: adjustment duration %v, elapsed since previous update %v (want whole seconds, rounded up: %v)", i, call.Duration, el, wantDur)
 				}
-				lim := 500e-6*float64(call.Duration) + 1
+				// elapsed whole seconds, rounded up, in integers (the difference of far-apart readings saturates)
+				whole := now.Unix() - prev.Unix()
+				if now.Nanosecond() > prev.Nanosecond() {
+					whole++
+				}
+				lim := 500e-6*float64(whole)*1e9*(1+1e-12) + 1
 				if math.Abs(float64(call.Offset)) > lim {
-					t.Fatalf("update %d: slew %d ns over %v exceeds 500 ppm (%.0f ns)", i, call.Offset, call.Duration, lim)
+					t.Fatalf("update %d: slew %d ns over %d elapsed whole seconds (duration asked for: %v) exceeds 500 ppm (%.0f ns)", i, call.Offset, whole, call.Duration, lim)
 				}
 				if math.Abs(float64(call.Offset)) >= lim-2 {
 					st.clamped++
@@ -147,10 +159,16 @@ func genCase(t *rapid.T) hcase {
 			External: i > 0 && rapid.IntRange(0, 29).Draw(t, "external") == 0,
 		})
 	}
+	// one gap of about 292 years or more between two clock readings (the elapsed time no longer fits a duration)
+	if n > 4 && rapid.IntRange(0, 7).Draw(t, "huge-gap") == 0 {
+		i := rapid.IntRange(n/2, n-1).Draw(t, "huge-gap-at")
+		c.U[i].Dt = rapid.SampledFrom([]int64{math.MaxInt64, 9223372036_000000000, 9223372036_000000001, 9223372036_854775807, 9000000000_000000000}).Draw(t, "huge-dt")
+		c.U[i].Dt2 = rapid.SampledFrom([]int64{0, 1, 1_000_000, 145224193, 854775807, int64(time.Hour), math.MaxInt64}).Draw(t, "huge-dt2")
+	}
 	return c
 }
 
-var rec = ev.New("c19/pll", "rapid state histories: 1..60 updates (dt from {0, 1 us, 0.4 s, 1 s, 1 s+1 ns, 2 s, 2 s+1 ns, 6 s, 6 s+1 ns, 64 s, 301 s, 1e5 s} and ranges; offset from an int64 mixture dense at +-1 ms; weight from {0,-0,-1,1,3,nextafter(3),49.9,50,149.9,150,1e6,+Inf,-Inf,NaN} and ranges), external epoch changes at any point, clock whose Step does / does not bump the epoch; clock readings non-decreasing. The real Pll drives a recording fake clock. Oracle (from the statement): a step only > 2 s after the first update of the clock epoch, weight > 3, |offset| > 1 ms, by exactly the offset, at most one per epoch and never after slewing began in that epoch; every adjustment has duration = ceil(elapsed s) > 0, |slew| <= 500 ppm x duration, finite frequency, and none before the step phase of a (re)started start-up sequence could have passed. One evaluation = one history. Non-trivial: history that reaches tracking with a clamped slew, or with an epoch change while tracking; distinct by history hash")
+var rec = ev.New("c19/pll", "rapid state histories: 1..60 updates (dt from {0, 1 us, 0.4 s, 1 s, 1 s+1 ns, 2 s, 2 s+1 ns, 6 s, 6 s+1 ns, 64 s, 301 s, 1e5 s} and ranges, and in one of eight longer histories one gap of 285..584 years, at and beyond what a duration can express; offset from an int64 mixture dense at +-1 ms; weight from {0,-0,-1,1,3,nextafter(3),49.9,50,149.9,150,1e6,+Inf,-Inf,NaN} and ranges), external epoch changes at any point, clock whose Step does / does not bump the epoch; clock readings non-decreasing. The real Pll drives a recording fake clock. Oracle (from the statement): a step only > 2 s after the first update of the clock epoch, weight > 3, |offset| > 1 ms, by exactly the offset, at most one per epoch and never after slewing began in that epoch; every adjustment has duration = ceil(elapsed s) > 0 (any positive duration when the elapsed seconds do not fit one), |slew| <= 500 ppm x duration, finite frequency, and none before the step phase of a (re)started start-up sequence could have passed. One evaluation = one history. Non-trivial: history that reaches tracking with a clamped slew, or with an epoch change while tracking; distinct by history hash")
 
 func TestPropPLL(t *testing.T) {
 	vt.Check(t, 150000, 600000, func(t *rapid.T) {
@@ -166,6 +184,9 @@ func TestPropPLL(t *testing.T) {
 		}
 		if st.adjusts > 0 {
 			ls = append(ls, "reached-tracking")
+		}
+		if st.hugeGaps > 0 {
+			ls = append(ls, "adjustment-after-a-gap-beyond-292-years")
 		}
 		if st.clamped > 0 {
 			ls = append(ls, "clamped-slew")
